@@ -1479,4 +1479,77 @@ example :
               (.ok (.dict [("a", .cell (.int 1))]), 1), (.ok (.dict [("a", .cell (.int 1))]), 1), (.ok (.dict [("a", .cell (.int 1))]), 1)] := by
   decide +kernel
 
+/-! ## the domain of the stack model: "loops on non-container input" (review t5)
+
+`evalChain` / `evalH` forward ONE call through a `loops` layer.  The code does that exactly when the argument the layer dispatches
+on is not a list / tuple / dict of one of its `types`; otherwise it makes one call per element (C19) and the theorems above say
+nothing about the code.  `inDomain` (Wrap.lean) is that side condition; the driver declines lines outside it and the harness
+checks the driver's verdict against an independently written python predicate on generated container arguments. -/
+
+/-- a layer of another class in front: the decomposition of the stack goes through it -/
+theorem exists_loops_cons (s : Sig) (w : Cls × PDict) (hw : w.1 ≠ Cls.loops) (rest : List (Cls × PDict)) (c c' : Call)
+    (hr : ∀ above, reach s (w :: above) c = reach s above c') :
+    (∃ above p below, w :: rest = above ++ (Cls.loops, p) :: below ∧ loopsPasses s p (reach s above c) = false) ↔
+    (∃ above p below, rest = above ++ (Cls.loops, p) :: below ∧ loopsPasses s p (reach s above c') = false) := by
+  constructor
+  · rintro ⟨above, p, below, he, hp⟩
+    rcases List.cons_eq_append_iff.mp he with ⟨h1, h2⟩ | ⟨above', h1, h2⟩
+    · simp only [List.cons.injEq] at h2
+      exact absurd (by rw [← h2.1]) hw
+    · subst h1
+      exact ⟨above', p, below, h2, by rw [← hr]; exact hp⟩
+  · rintro ⟨above, p, below, he, hp⟩
+    exact ⟨w :: above, p, below, by rw [he]; rfl, by rw [hr]; exact hp⟩
+
+/-- **the domain, through `reach`**: a call is outside the domain of the stack model iff SOME `loops` layer of the stack receives -
+as the layers above it forward the call - a list / tuple / dict of one of its own looped types as the argument it dispatches on -/
+theorem inDomain_false_iff (s : Sig) : ∀ (chain : List (Cls × PDict)) (c : Call),
+    inDomain s chain c = false ↔
+      ∃ above p below, chain = above ++ (Cls.loops, p) :: below ∧ loopsPasses s p (reach s above c) = false
+  | [], c => by simp [inDomain]
+  | (.tryValue, q) :: rest, c => by
+      rw [exists_loops_cons s _ (by simp) rest c c (fun _ => rfl), ← inDomain_false_iff s rest c]; simp [inDomain]
+  | (.tryBack, q) :: rest, c => by
+      rw [exists_loops_cons s _ (by simp) rest c c (fun _ => rfl), ← inDomain_false_iff s rest c]; simp [inDomain]
+  | (.cache, q) :: rest, c => by
+      rw [exists_loops_cons s _ (by simp) rest c c (fun _ => rfl), ← inDomain_false_iff s rest c]; simp [inDomain]
+  | (.kwargsSupport, q) :: rest, c => by
+      rw [exists_loops_cons s _ (by simp) rest c (kwFilter s c) (fun _ => rfl), ← inDomain_false_iff s rest _]; simp [inDomain]
+  | (.pd2np, q) :: rest, c => by
+      rw [exists_loops_cons s _ (by simp) rest c (pd2npCall (excOf q) c) (fun _ => rfl), ← inDomain_false_iff s rest _]; simp [inDomain]
+  | (.loops, q) :: rest, c => by
+      have ih := inDomain_false_iff s rest (loopsCall s c)
+      simp only [inDomain, Bool.and_eq_false_iff]
+      constructor
+      · rintro (h | h)
+        · exact ⟨[], q, rest, rfl, h⟩
+        · obtain ⟨above, p, below, he, hp⟩ := ih.mp h
+          exact ⟨(Cls.loops, q) :: above, p, below, by rw [he]; rfl, hp⟩
+      · rintro ⟨above, p, below, he, hp⟩
+        rcases List.cons_eq_append_iff.mp he with ⟨h1, h2⟩ | ⟨above', h1, h2⟩
+        · subst h1
+          simp only [List.cons.injEq, Prod.mk.injEq, true_and] at h2
+          left; rw [← h2.1]; exact hp
+        · subst h1
+          right; exact ih.mpr ⟨above', p, below, h2, hp⟩
+
+/-- scalars are always inside: a call whose arguments are all cells is in the domain of every stack (the calls of every
+generated `stack` / `stackhist` line but the container-first-argument ones) -/
+theorem loopsPasses_of_cell (s : Sig) (p : PDict) (c : Call) (h : ∀ a, loopsArg s c = some a → ∃ x, a = .cell x) :
+    loopsPasses s p c = true := by
+  unfold loopsPasses
+  cases ha : loopsArg s c with
+  | none => rfl
+  | some a => obtain ⟨x, hx⟩ := h a ha; subst hx; rfl
+
+/-- the reviewer's witness: `loops(types=[list])(f)([1, 2])` is outside (the code returns `[f(1), f(2)]`, not `f([1, 2])`), the same
+call on a stack whose `loops` has `types=[tuple]` is inside, and so is a scalar call -/
+example :
+    let s : Sig := { params := ["a"], defaults := [], varargs := none, varkw := none }
+    let l12 : Call := { args := [.list [.cell (.int 1), .cell (.int 2)]], kw := [] }
+    inDomain s [(.tryBack, []), (.loops, [("types", .list [.cell (.str "list")])])] l12 = false ∧
+    inDomain s [(.tryBack, []), (.loops, [("types", .list [.cell (.str "tuple")])])] l12 = true ∧
+    inDomain s [(.loops, [("types", .list [.cell (.str "list")])])] { args := [], kw := [("a", .cell (.int 1))] } = true := by
+  decide +kernel
+
 end Pyg.Props.C18
